@@ -5,7 +5,7 @@
    transport are oracles: the theorems below hold for EVERY answer they may give. *)
 From Coq Require Import List Bool.
 From EN Require Import Lib.Bytes Conc.TlsBase Conc.TlsPump Conc.IdealTls Conc.TlsDuplex
-  Proofs.C08_proofs Proofs.C09_proofs Proofs.C08_locks Proofs.C08_duplex.
+  Proofs.C08_proofs Proofs.Ideal_proofs Proofs.C08_locks Proofs.C08_duplex.
 Import ListNotations.
 
 (* (i) cipher_only.  For every trace (any number of tasks, any interleaving, any answers of the SSL object and of the
